@@ -109,6 +109,9 @@ func checkCmd(args []string) int {
 		}
 	}
 	outDir := filepath.Join(*root, "out", id)
+	if d := os.Getenv("VERIF_OUT_TAG"); d != "" {
+		outDir = filepath.Join(*root, "out", d, id)
+	}
 	os.MkdirAll(outDir, 0o755)
 
 	progs := map[string]*sym.Program{}
@@ -298,7 +301,7 @@ func checkCmd(args []string) int {
 }
 
 func ownsAssertion(prefixes []string, id string) bool {
-	if len(prefixes) == 0 {
+	if len(prefixes) == 0 || strings.HasPrefix(id, "aux.") || strings.HasPrefix(id, "twin:") {
 		return true
 	}
 	for _, p := range prefixes {
@@ -441,8 +444,12 @@ func writeEvidence(root, id, tier string, seed int, exs []*sym.Explorer, spec *C
 	ev := map[string]any{"property_id": id, "tier": tier, "seed": seed, "level": "model_checking", "coverage": cov,
 		"assumptions": spec.Assumptions, "wall_s": wall.Seconds(), "violations": violations}
 	b, _ := json.MarshalIndent(ev, "", " ")
-	os.MkdirAll(filepath.Join(root, "evidence"), 0o755)
-	os.WriteFile(filepath.Join(root, "evidence", id+".json"), b, 0o644)
+	evDir := filepath.Join(root, "evidence")
+	if d := os.Getenv("VERIF_EVIDENCE_DIR"); d != "" {
+		evDir = d // used when a seeded change is evaluated against a scratch copy of the repository
+	}
+	os.MkdirAll(evDir, 0o755)
+	os.WriteFile(filepath.Join(evDir, id+".json"), b, 0o644)
 }
 
 func keys(m map[string]bool) []string {
